@@ -70,3 +70,54 @@ Example C04_go_mod_ex :
   /\ map nv2 (parse_go_mod (render f)) = declared_go_mod f.
 Proof. vm_compute. repeat split. Qed.
 Print Assumptions C04_go_mod.
+
+(* Cargo.toml: for every document whose tree-sitter-toml tree denotes a TOML document d (Spec/TomlDoc.v), written in the
+   plain spellings (plain_toml: bare / dotted-bare keys without blanks, basic strings without backslashes - the other
+   spellings are the known classes toml-quoted-key / toml-literal-string), well-formed as a Cargo manifest as far as the
+   reading goes (cargo_shape_ok) and outside the known classes (cargo_known: renamed packages, sections other than the
+   four literal table names, dotted dependencies with a path/workspace/registry member), the walk reports exactly the
+   declared (crate, requirement) pairs, in document order - and each reported range is exactly the requirement text *)
+From VL Require Import Spec.TomlDoc Proofs.TomlWalkProofs.
+Theorem C04_cargo_toml :
+  forall content root d,
+  denote_toml content root = Some d -> plain_toml content root = true -> cargo_shape_ok d = true -> cargo_known d = false ->
+  exists pkgs, walk_cargo_toml content root = Some pkgs /\ map TomlWalkProofs.nv pkgs = declared_cargo d.
+Proof.
+  intros content root d H1 H2 H3 H4. destruct (cargo_toml_exact content root d H1 H2 H3 H4) as [pkgs [E [M _]]]. exists pkgs. now split.
+Qed.
+(* the tables and skip keys the walk uses are the documented ones (regenerated from the source) *)
+Theorem C04_cargo_tables_documented :
+  cargo_plain_tables = map (split_on 46) cargo_dependency_tables /\ cargo_skip_keys = cargo_nonregistry_keys.
+Proof. split; [exact tables_documented|exact skip_keys_documented]. Qed.
+(* layout independence: two documents denoting the same TOML document yield the same list *)
+Theorem C04_cargo_layout_independent :
+  forall c1 r1 c2 r2 d p1 p2,
+  denote_toml c1 r1 = Some d -> denote_toml c2 r2 = Some d -> plain_toml c1 r1 = true -> plain_toml c2 r2 = true ->
+  cargo_shape_ok d = true -> cargo_known d = false ->
+  walk_cargo_toml c1 r1 = Some p1 -> walk_cargo_toml c2 r2 = Some p2 -> map TomlWalkProofs.nv p1 = map TomlWalkProofs.nv p2.
+Proof.
+  intros c1 r1 c2 r2 d p1 p2 H1 H2 P1 P2 S K W1 W2.
+  destruct (cargo_toml_exact c1 r1 d H1 P1 S K) as [q1 [E1 [M1 _]]]. destruct (cargo_toml_exact c2 r2 d H2 P2 S K) as [q2 [E2 [M2 _]]].
+  rewrite W1 in E1. rewrite W2 in E2. injection E1 as <-. injection E2 as <-. congruence.
+Qed.
+(* the hypotheses are satisfiable, and the known classes are real: witnesses on concrete trees *)
+Definition ex_cargo_text : bytes :=   (* [dependencies]\na = "1"\n *)
+  [91;100;101;112;101;110;100;101;110;99;105;101;115;93;10;97;32;61;32;34;49;34;10].
+Definition ex_cargo_tree : node :=
+  Node tk_document [] 0 23 0 0 false
+    [Node tk_table [] 0 23 0 0 false
+      [Node [91] [] 0 1 0 0 false []; Node tk_bare_key [] 1 13 0 1 false []; Node [93] [] 13 14 0 13 false [];
+       Node tk_pair [] 15 22 1 0 false
+         [Node tk_bare_key [] 15 16 1 0 false []; Node [61] [] 17 18 1 2 false [];
+          Node tk_string [] 19 22 1 4 false [Node [34] [] 19 20 1 4 false []; Node [34] [] 21 22 1 6 false []]]]].
+Example C04_cargo_ex :
+  denote_toml ex_cargo_text ex_cargo_tree = Some [ITable [w_dependencies] [([[97]], TStr [49])]]
+  /\ plain_toml ex_cargo_text ex_cargo_tree = true /\ cargo_shape_ok [ITable [w_dependencies] [([[97]], TStr [49])]] = true
+  /\ cargo_known [ITable [w_dependencies] [([[97]], TStr [49])]] = false
+  /\ option_map (map TomlWalkProofs.nv) (walk_cargo_toml ex_cargo_text ex_cargo_tree) = Some [([97], [49])].
+Proof. vm_compute. repeat split. Qed.
+Example C04_cargo_renamed_refuted :
+  let d := [ITable [w_dependencies] [([[97]], TInline [([w_version], TStr [49]); ([w_package], TStr [98])])]] in
+  cargo_known d = true /\ declared_cargo d = [([98], [49])].
+Proof. vm_compute. repeat split. Qed.
+Print Assumptions C04_cargo_toml.
